@@ -6,7 +6,7 @@
    function of the concatenation of the chunks, whatever the chunk boundaries and however many Pending wake-ups
    occur in between.  Statements only; lemmas in Proofs/AsyncGenP.v.  Every schema, every declared type, binary /
    binary-LE / compact. *)
-From PV Require Import Proofs.HeaderP.
+From PV Require Import Proofs.HeaderP Proofs.PrefixP.
 From PVGen Require Import Gen GenSpec GenAsync Proofs.TotalGenP Proofs.AsyncGenP.
 Open Scope Z_scope.
 
@@ -53,3 +53,36 @@ Theorem C12_gen_roundtrip : forall S p k t v,
       gen_decode_async S p fuel t (mkS (flat ss ++ r) rcx) = Ok (fill_defaults S t v, mkS r rcx).
 Proof. exact gen_async_roundtrip. Qed.
 Print Assumptions C12_gen_roundtrip.
+
+(* the asynchronous decoders are monotone in what the stream delivers: a decode that succeeds when the stream ends
+   after [rbuf s] succeeds with the same value when more bytes follow, and leaves them unpulled *)
+Theorem C12_gen_async_monotone : forall S p f t s v s' tl,
+  gen_decode_async S p f t s = Ok (v, s') -> gen_decode_async S p f t (PrefixP.ext s tl) = Ok (v, PrefixP.ext s' tl).
+Proof. exact gen_decode_async_monotone. Qed.
+Print Assumptions C12_gen_async_monotone.
+
+(* the asynchronous decoders have no panic outcome in the model (the capacity-overflow panic / allocation abort of
+   `with_capacity(wire count)` -- finding F-09e -- is an allocation effect the outcome type does not carry) *)
+Theorem C12_gen_async_no_panic : forall S p f t s st, gen_decode_async S p f t s <> Panic st.
+Proof. exact (fun S p f t => NP_gen_decode_async S p f t). Qed.
+Print Assumptions C12_gen_async_no_panic.
+
+(* FULL STATEMENT (C12_gen_error):  forall l, gen_decode S p f t (mkS l rcx) = Err e ->
+                                     exists e', gen_decode_async S p f t (mkS l rcx) = Err e' /\ e' <> EOutOfFuel.
+   Proved part: the inputs the property names -- "prefixes of valid input: async sees EOF": when the stream ends
+   strictly inside a message written by the emitted encoder (where the in-memory decoder reports an error,
+   C09_gen_prefix), the asynchronous decoder does not return a value, it returns an error.
+   Missing: (1) arbitrary corrupted inputs: the async readers do not validate container counts against the
+   remaining length (they cannot), so "sync error => async error" needs a progress argument per element type
+   (every element consumes a byte, except a bool riding in a compact field header); (2) the statement does not
+   exclude that the error is the model's fuel exhaustion (that needs the converse of C12_gen_async_monotone:
+   a run on a truncated stream follows the run on the full stream up to the first EOF). *)
+Theorem C12_gen_error_partial : forall S p k t v,
+  wf_schema S = true -> has_type S t v = true ->
+  forall c, w_pend c = None ->
+  exists ss, enc_ty S p k t v c = Ok (ss, c) /\
+    forall n fuel rcx, (n < length (flat ss))%nat -> (vsize (to_tval S t v) <= fuel)%nat -> idle rcx ->
+      Z.of_nat (length (flat ss)) < 2 ^ 63 ->
+      exists e, gen_decode_async S p fuel t (mkS (firstn n (flat ss)) rcx) = Err e.
+Proof. exact gen_async_prefix_error. Qed.
+Print Assumptions C12_gen_error_partial.
